@@ -1,5 +1,5 @@
 //@file src/append/rolling_file/policy/compound/trigger/onstartup.rs
-//@harness c17_onstartup_sequence strength=complete bound="all (min_size, len1, len2, len3) in u64^4: three consecutive consultations (full domain), loop-free" timeout=600
+//@harness c17_onstartup_sequence unwind=4 strength=complete bound="all (min_size, len1, len2, len3) in u64^4: three consecutive consultations (full domain), loop-free" timeout=600
 // Statement: at most one rotation, only while handling the first record after start-up and only if the file that
 // existed at that moment is at least min_size bytes. Later consultations see other (grown) sizes: they must not fire.
 #[cfg(any(kani, verif_replay))]
@@ -27,5 +27,6 @@ mod __verif_c17 {
     }
     #[cfg(kani)]
     #[kani::proof]
+    #[kani::unwind(4)]
     fn c17_onstartup_sequence() { let mut src = Src::new(); body(&mut src); }
 }
